@@ -117,11 +117,10 @@ def load_findings():
 
 
 def open_deviations(prop):
-    """Names of the spec deviations enabled in this property's check: those of its own open findings
-    and those of other properties' findings whose behaviour also shows up in this check's traces."""
+    """Names of the spec deviations enabled in this property's check (see 'scope' in known_findings.json)."""
     kf = load_findings()
     return sorted({e["deviation"] for e in kf.get("open", [])
-                   if e.get("deviation") and (e["property"] == prop or prop in e.get("also_in", []))})
+                   if e.get("deviation") and (e["property"] == prop or e.get("scope") == "*" or prop in e.get("scope", []))})
 
 
 def finding_of(deviation):
